@@ -4,6 +4,10 @@ CONSTANTS
   Caps <- CapsAll
   GMasks <- AllGroups
   SMasks <- SiteMasks
+  JMasks <- NoSites
+  TMasks <- NoSites
+  AMasks <- NoSites
+  FlagSets <- NoFlags
   Statics <- BothBool
   CatMasks <- ThreeCats
   QPos <- Q0
@@ -16,6 +20,7 @@ INVARIANT TypeOK
 INVARIANT Bounded
 INVARIANT StatusIsOverflow
 INVARIANT Faithful
+INVARIANT GroupLaw
 INVARIANT MinLaw
 INVARIANT OnlyGeoms
 INVARIANT WalkDeterministic
